@@ -234,6 +234,10 @@ inductive Reachable (P : Fn β ε) (p0 : Src β ε) : Src β ε → Prop
   | init : Reachable P p0 p0
   | step {p q} : Reachable P p0 p → Step P p q → Reachable P p0 q
 
+/-- A source created under a context that is ALREADY cancelled: the cancel happens before the goroutine's first step
+(the lock-step driver starts `pre=1` scripts here; reachable by `Props/C11.preStart_reachable`). -/
+def preStart (P : Fn β ε) (p0 : Src β ε) : List (Src β ε) := (envNext P p0 .cancel).map (·.1)
+
 /-- pending wake-up -/
 def wake? (p : Src β ε) : Option Nat :=
   match p.pc with
